@@ -74,8 +74,14 @@ func pat(g, seq, i int) byte { return byte(g*131 + seq*31 + i*7 + 1) }
 // checkAllocHistory is the oracle over the recorded regions.
 func checkAllocHistory(h allocHistory) (string, allocStats) {
 	var st allocStats
-	var rs []region
-	for _, r := range h.Regions {
+	type span struct { // compact copy for sorting
+		off uint64
+		n   int32
+		idx int32
+	}
+	rs := make([]span, 0, len(h.Regions))
+	for i := range h.Regions {
+		r := &h.Regions[i]
 		if r.Panic != "" {
 			if r.Panic != retryPanic {
 				return fmt.Sprintf("goroutine %d alloc #%d (n=%d) failed with %q: neither a valid range nor the documented loud failure", r.G, r.Seq, r.N, r.Panic), st
@@ -96,39 +102,40 @@ func checkAllocHistory(h allocHistory) (string, allocStats) {
 		if r.Off+uint64(r.N) > h.EndSize {
 			return fmt.Sprintf("goroutine %d alloc #%d: region [%d,%d) lies beyond the final Size() = %d", r.G, r.Seq, r.Off, r.Off+uint64(r.N), h.EndSize), st
 		}
-		rs = append(rs, r)
+		rs = append(rs, span{r.Off, int32(r.N), int32(i)})
 	}
 	sort.Slice(rs, func(i, j int) bool {
-		if rs[i].Off != rs[j].Off {
-			return rs[i].Off < rs[j].Off
+		if rs[i].off != rs[j].off {
+			return rs[i].off < rs[j].off
 		}
-		return rs[i].G*100000+rs[i].Seq < rs[j].G*100000+rs[j].Seq
+		return rs[i].idx < rs[j].idx
 	})
 	for i := 1; i < len(rs); i++ {
-		a, b := rs[i-1], rs[i]
-		if a.Off+uint64(a.N) > b.Off {
+		if rs[i-1].off+uint64(rs[i-1].n) > rs[i].off {
+			a, b := h.Regions[rs[i-1].idx], h.Regions[rs[i].idx]
 			return fmt.Sprintf("regions overlap: goroutine %d alloc #%d [%d,%d) and goroutine %d alloc #%d [%d,%d)",
 				a.G, a.Seq, a.Off, a.Off+uint64(a.N), b.G, b.Seq, b.Off, b.Off+uint64(b.N)), st
 		}
 	}
-	for _, r := range rs {
-		if r.Bad != "" {
+	for i := range h.Regions {
+		if r := &h.Regions[i]; r.Panic == "" && r.Bad != "" {
 			return fmt.Sprintf("goroutine %d alloc #%d [%d,%d): private pattern damaged: %s", r.G, r.Seq, r.Off, r.Off+uint64(r.N), r.Bad), st
 		}
 	}
 	// measured: gaps inside chunks
-	chunks := map[uint64]bool{}
+	nchunks := 0
 	for i, r := range rs {
-		c := r.Off / h.Chunk
-		chunks[c] = true
-		if i == 0 || rs[i-1].Off/h.Chunk != c {
-			if r.Off != c*h.Chunk {
+		c := r.off / h.Chunk
+		if i == 0 || rs[i-1].off/h.Chunk != c {
+			nchunks++
+			if r.off != c*h.Chunk {
 				st.midGaps++ // gap at the start of a chunk
 			}
-		} else if rs[i-1].Off+uint64(rs[i-1].N) != r.Off {
+		} else if rs[i-1].off+uint64(rs[i-1].n) != r.off {
 			st.midGaps++
 		}
 	}
+	chunks := make([]struct{}, nchunks)
 	st.crossings = len(chunks)
 	return "", st
 }
@@ -257,7 +264,7 @@ func runDense(s *stor.Stor, chunk int, sizes [][]int, stride []int, rounds int) 
 	}
 	close(start)
 	wg.Wait()
-	h := allocHistory{Chunk: uint64(chunk), EndSize: s.Size()}
+	h := allocHistory{Chunk: uint64(chunk), EndSize: s.Size(), Regions: make([]region, 0, len(sizes)*rounds)}
 	for g := range recs {
 		for i := range recs[g] {
 			r := &recs[g][i]
@@ -463,16 +470,16 @@ func TestC18(t *testing.T) {
 
 	// dense: tiny chunks, sizes up to the chunk size, 6-12 goroutines allocating
 	// back to back so that chunk crossings and concurrent extends dominate.
-	rt.Check(t, rec, "dense", 250, 500, func(t *rapid.T) {
-		chunk := gen.Pick(t, "chunk", []int{32, 64, 64, 128})
+	rt.Check(t, rec, "dense", 300, 500, func(t *rapid.T) {
+		chunk := gen.Pick(t, "chunk", []int{32, 64, 64, 64, 128})
 		ng := 6 + gen.Uniform(t, "ng", 7)
-		rounds := gen.Pick(t, "rounds", []int{500, 1500, 3000})
+		rounds := gen.Pick(t, "rounds", []int{1000, 2000, 4000})
 		sizes := make([][]int, ng)
 		stride := make([]int, ng)
 		for g := range sizes {
 			n := 5 + gen.Uniform(t, "plen", 28)
 			for k := 0; k < n; k++ {
-				if gen.Chance(t, "uniform", 70) {
+				if gen.Chance(t, "uniform", 80) {
 					sizes[g] = append(sizes[g], 1+gen.Uniform(t, "sz", chunk))
 				} else {
 					sizes[g] = append(sizes[g], genSize(t, chunk))
